@@ -4,6 +4,7 @@ import (
 	"fmt"
 	"go/token"
 	"go/types"
+	"sort"
 	"strings"
 
 	"golang.org/x/tools/go/ssa"
@@ -454,3 +455,185 @@ func (p *Prog) storesTree(fn *ssa.Function, b *ssa.BasicBlock, tree ssa.Value) b
 	}
 	return false
 }
+
+// --- R-VALIDATE: the second validation pass --------------------------------------------------------
+
+var ruleValidate = &Rule{
+	Name: "R-VALIDATE", NeedSSA: true,
+	Doc: "decision table of the placement validator (the recursive function ast.New runs over the tree): the depth counter grows by one exactly for the operand of a filter and is passed unchanged to every other child and to the next link; the in-subscript flag becomes true exactly for the elements of a subscript list and is otherwise passed unchanged; `@` at depth ≤ 0 and `last` outside a subscript return an error, and are accepted otherwise",
+	Run: func(p *Prog) *RuleOut {
+		out := newOut("R-VALIDATE")
+		astNew := p.ssaFunc(pkgAST, "New")
+		if astNew == nil {
+			out.undecided("ast.New", "-", "", "anchor unresolved")
+			return out
+		}
+		// the validator: the self-recursive function ast.New calls
+		var v *ssa.Function
+		for _, b := range astNew.Blocks {
+			for _, ins := range b.Instrs {
+				if c, ok := ins.(*ssa.Call); ok && c.Call.StaticCallee() != nil && fnPkgPath(c.Call.StaticCallee()) == pkgAST {
+					if len(callsTo(c.Call.StaticCallee(), c.Call.StaticCallee())) > 0 {
+						v = c.Call.StaticCallee()
+					}
+				}
+			}
+		}
+		if v == nil {
+			out.undecided("placement validator", p.pos(astNew.Pos()), fnName(astNew), "ast.New does not call a self-recursive validator")
+			return out
+		}
+		var depthP, subP *ssa.Parameter
+		for _, q := range v.Params {
+			if b, ok := q.Type().(*types.Basic); ok {
+				switch b.Kind() {
+				case types.Int:
+					depthP = q
+				case types.Bool:
+					subP = q
+				}
+			}
+		}
+		if depthP == nil || subP == nil {
+			out.undecided("placement validator", p.pos(v.Pos()), fnName(v), "expected (node, depth int, inSubscript bool)")
+			return out
+		}
+		// ast.New starts at depth 0, outside a subscript
+		for _, c := range callsTo(astNew, v) {
+			d, okd := constInt(c.Call.Args[1])
+			s, oks := c.Call.Args[2].(*ssa.Const)
+			if okd && d == 0 && oks && s.Value != nil && s.Value.ExactString() == "false" {
+				out.ok("validation starts at depth 0 outside a subscript", p.pos(c.Pos()), fnName(astNew), "")
+			} else {
+				out.viol("validation starts at depth 0 outside a subscript", p.pos(c.Pos()), fnName(astNew), "the root is not validated with depth 0 / inSubscript false")
+			}
+		}
+		tx, rows := p.extractTable(v, nil, &TableCfg{
+			IntDomain: func(x ssa.Value) []int64 {
+				if x == ssa.Value(depthP) {
+					return []int64{-1, 0, 1, 2}
+				}
+				return nil
+			},
+			SinkContinue: true, MaxPaths: 40000,
+			Sink: func(ins ssa.Instruction) []ssa.Value {
+				c, ok := ins.(*ssa.Call)
+				if !ok || c.Call.StaticCallee() != v {
+					return nil
+				}
+				return []ssa.Value{c.Call.Args[1], c.Call.Args[2]}
+			}})
+		if tx.over {
+			out.undecided("decision table of the placement validator", p.pos(v.Pos()), fnName(v), "too many paths")
+			return out
+		}
+		ui := p.A.Enums["UnaryOperator"]
+		ci := p.A.Enums["Constant"]
+		filterK := constOf(ui.byName("UnaryFilter"))
+		curK, lastK := constOf(ci.byName("ConstCurrent")), constOf(ci.byName("ConstLast"))
+		var unaryOp, constKind string
+		for k, ai := range tx.atoms {
+			if strings.HasPrefix(k, "field:") {
+				if types.Identical(ai.Val.Type(), ui.Type) {
+					unaryOp = k
+				}
+				if types.Identical(ai.Val.Type(), ci.Type) {
+					constKind = k
+				}
+			}
+		}
+		n := 0
+		var probs []string
+		for _, r := range rows {
+			if r.Loop != nil {
+				continue
+			}
+			names := tx.atomsOf(append(guardTerms(r), r.Out...)...)
+			tx.term(depthP, r, 0)
+			tx.term(subP, r, 0)
+			names = uniq(sortStrings(append(names, depthP.Name(), subP.Name())))
+			call, isCall := r.End.(*ssa.Call)
+			for _, as := range tx.models(r, names) {
+				d, s := as[depthP.Name()], as[subP.Name()]
+				if isCall {
+					n++
+					gd, gs := tx.eval(r.Out[0], as, 0), tx.eval(r.Out[1], as, 0)
+					child := call.Call.Args[0]
+					wantD, wantS := d, s
+					what := "child"
+					switch c := child.(type) {
+					case *ssa.Call:
+						if c.Call.IsInvoke() && c.Call.Method.Name() == "Next" {
+							what = "next link"
+						}
+					case *ssa.UnOp:
+						switch a := c.X.(type) {
+						case *ssa.FieldAddr:
+							if n := namedOf(a.X.Type()); n != nil && n.Obj().Name() == "UnaryNode" {
+								what = "operand of a unary node"
+								if unaryOp != "" && as[unaryOp] == filterK {
+									wantD = d + 1
+									what = "operand of a filter"
+								}
+							}
+						case *ssa.IndexAddr:
+							what = "element of a subscript list"
+							wantS = 1
+						}
+					}
+					if gd.Kind != "int" || gd.K != wantD {
+						probs = append(probs, fmt.Sprintf("%s is validated at depth %v instead of %d (depth=%d): `@` is accepted or rejected in the wrong place", what, gd.K, wantD, d))
+					}
+					if gs.Kind != "int" || gs.K != wantS {
+						probs = append(probs, fmt.Sprintf("%s is validated with inSubscript=%v instead of %v: `last` is accepted or rejected in the wrong place", what, gs.K == 1, wantS == 1))
+					}
+					continue
+				}
+				ret, isRet := r.End.(*ssa.Return)
+				if !isRet || constKind == "" {
+					continue
+				}
+				k, has := as[constKind]
+				if !has {
+					continue
+				}
+				_ = ret
+				isErr := len(r.Out) == 1 && r.Out[0].Kind != "nil"
+				// only returns reached directly from the constant's own check
+				switch {
+				case k == curK && d <= 0:
+					n++
+					if !isErr {
+						probs = append(probs, fmt.Sprintf("`@` at depth %d is accepted", d))
+					}
+				case k == lastK && s == 0:
+					n++
+					if !isErr {
+						probs = append(probs, "`last` outside a subscript is accepted")
+					}
+				case isErr && len(r.Calls) == 0:
+					// an error without any recursive call: must be one of the two cases above
+					if k == curK || k == lastK {
+						probs = append(probs, fmt.Sprintf("a correctly placed constant (kind %d, depth %d, inSubscript %v) is rejected", k, d, s == 1))
+					}
+				}
+			}
+		}
+		sort.Strings(probs)
+		probs = uniq(probs)
+		key := "decision table of the placement validator"
+		if len(probs) == 0 && n >= 30 {
+			out.ok(key, p.pos(v.Pos()), fnName(v), fmt.Sprintf("%d cells: depth+1 only into filter operands, inSubscript only into subscript elements, everything else passed through; misplaced @ / last rejected", n))
+		} else {
+			if len(probs) > 6 {
+				probs = probs[:6]
+			}
+			out.viol(key, p.pos(v.Pos()), fnName(v), fmt.Sprintf("%d cells; %s", n, strings.Join(probs, "; ")), probs...)
+		}
+		out.Counts["validator_cells"] = n
+		out.Floors["validator_cells"] = 30
+		return out
+	},
+}
+
+func init() { register(ruleValidate) }
